@@ -27,7 +27,7 @@ type lqTraceIn struct {
 
 var lqFields = []string{"height", "prev", "ts", "broot", "troot", "body", "sigs", "keepers", "sroot"}
 var lqAlts = map[string][]string{"height": {"stale", "skip"}, "prev": {"old", "unknown"}, "ts": {"eq", "lt"}, "broot": {"bad"},
-	"troot": {"bad", "badc"}, "body": {"drop", "alter", "dup", "evmnonce"}, "sigs": {"none", "few", "foreign", "dupsig", "stale"},
+	"troot": {"bad", "badc", "zero", "zeroc"}, "body": {"drop", "alter", "dup", "evmnonce"}, "sigs": {"none", "few", "foreign", "dupsig", "stale"},
 	"keepers": {"foreign", "subset"}, "sroot": {"bad"}}
 
 func lqValidMut() map[string]string {
@@ -178,7 +178,7 @@ func lqShapeJSON(sh lqShape) map[string]interface{} {
 
 func lqMixedTrace(r *lqRun, tin *lqTraceIn, rng *rand.Rand, out *vhOut) {
 	paths := []string{"wire", "mem", "exec"}
-	kinds := []string{"native-transfer", "native-transfer-fail", "neovm-deploy", "neovm-storage-put", "neovm-badscript", "evm-transfer",
+	kinds := []string{"native-transfer", "native-transfer-fail", "neovm-deploy", "neovm-storage-put", "neovm-badscript", "evm-transfer", "evm-transfer-free",
 		"evm-create", "evm-call-log", "evm-msg-call", "evm-msg-create", "batch-atomic", "batch-plain"}
 	for s := 0; s < tin.NSteps && r.ls != nil; s++ {
 		o := &lqObs{}
@@ -196,10 +196,13 @@ func lqMixedTrace(r *lqRun, tin *lqTraceIn, rng *rand.Rand, out *vhOut) {
 				if m["body"] != "ok" && sh.Ntx == 0 {
 					m["body"] = "ok"
 				}
+				if (m["troot"] == "zero" || m["troot"] == "zeroc") && sh.Ntx == 0 {
+					m["troot"] = "ok"
+				}
 				if m["prev"] == "old" && len(r.names) == 0 {
 					m["prev"] = "unknown"
 				}
-				if (m["body"] != "ok" && m["body"] != "evmnonce") || m["troot"] == "badc" {
+				if (m["body"] != "ok" && m["body"] != "evmnonce") || m["troot"] == "badc" || m["troot"] == "zeroc" {
 					path = "wire" // the body/root mismatch is the recorded deviation of the other two paths
 				}
 			}
